@@ -6,10 +6,548 @@ From Verif Require Import Base.Val gen.Tables_C01 gen.Tables_C07 C01.Model_C01 C
 Definition cfg_fixed : cfg := {| udc_keyed := true |}.
 Definition cfg_pinned : cfg := {| udc_keyed := false |}.
 
-(* the pinned _VersionMatch: a negated ~ equals the plain ~ and matches the complement *)
+(* ================================================================== the model's key tuples are the source's *)
+(* The equality / hash functions of Model_C07 hard-wire which attributes are compared.  These examples tie
+   them to the tuples regenerated from today's source (gen/Tables_C07.v): an edited __attr_comparison__
+   or hashed tuple breaks the build. *)
+Definition S (l : list N) : str := l.
+Example tbl_exact_ok : tbl_StrExactMatch =
+  [S [101;120;97;99;116]; S [99;97;115;101;95;115;101;110;115;105;116;105;118;101]; S [110;101;103;97;116;101]]%N.
+Proof. reflexivity. Qed.
+Example tbl_glob_ok : tbl_StrGlobMatch =
+  [S [103;108;111;98]; S [112;114;101;102;105;120]; S [110;101;103;97;116;101]; S [102;108;97;103;115]]%N.
+Proof. reflexivity. Qed.
+Example tbl_regex_ok : tbl_StrRegex =
+  [S [114;101;103;101;120]; S [110;101;103;97;116;101]; S [102;108;97;103;115]; S [105;115;109;97;116;99;104]]%N.
+Proof. reflexivity. Qed.
+Example tbl_cont_ok : tbl_ContainmentMatch = [S [118;97;108;115]; S [97;108;108]; S [110;101;103;97;116;101]]%N.
+Proof. reflexivity. Qed.
+Example tbl_pr_ok : tbl_PackageRestriction =
+  [S [95;95;99;108;97;115;115;95;95]; S [110;101;103;97;116;101]; S [95;97;116;116;114;95;115;112;108;105;116];
+   S [114;101;115;116;114;105;99;116;105;111;110]]%N.
+Proof. reflexivity. Qed.
+Example tbl_cond_ok : tbl_Conditional =
+  [S [95;95;99;108;97;115;115;95;95]; S [110;101;103;97;116;101]; S [97;116;116;114];
+   S [114;101;115;116;114;105;99;116;105;111;110]; S [112;97;121;108;111;97;100]]%N.
+Proof. reflexivity. Qed.
+Example tbl_bool_ok : tbl_boolean_base =
+  [S [95;95;99;108;97;115;115;95;95]; S [110;101;103;97;116;101]; S [116;121;112;101];
+   S [114;101;115;116;114;105;99;116;105;111;110;115]]%N.
+Proof. reflexivity. Qed.
+Example tbl_atom_ok : tbl_atom =
+  [S [99;112;118;115;116;114]; S [111;112]; S [98;108;111;99;107;115]; S [110;101;103;97;116;101;95;118;101;114;115];
+   S [117;115;101]; S [115;108;111;116]; S [115;117;98;115;108;111;116];
+   S [115;108;111;116;95;111;112;101;114;97;116;111;114]; S [114;101;112;111;95;105;100]]%N.
+Proof. reflexivity. Qed.
+(* repaired _VersionMatch.__hash__: hash((self.droprev, self.ver, self.rev, self._convert_ops(self))) *)
+Example tbl_hash_vm_ok : tbl_hash_VersionMatch =
+  [S [100;114;111;112;114;101;118]; S [118;101;114]; S [114;101;118];
+   S [95;99;111;110;118;101;114;116;95;111;112;115;40;41]]%N.
+Proof. reflexivity. Qed.
+Example tbl_hash_pr_ok : tbl_hash_PackageRestriction =
+  [S [110;101;103;97;116;101]; S [97;116;116;114;115]; S [114;101;115;116;114;105;99;116;105;111;110]]%N.
+Proof. reflexivity. Qed.
+Example tbl_hash_cond_ok : tbl_hash_Conditional =
+  [S [97;116;116;114]; S [110;101;103;97;116;101]; S [114;101;115;116;114;105;99;116;105;111;110];
+   S [112;97;121;108;111;97;100]]%N.
+Proof. reflexivity. Qed.
+
+(* ================================================================== boolean equalities *)
+Lemma lstr_eqb_eq a b : lstr_eqb a b = true -> a = b.
+Proof.
+  revert b; induction a as [|x a IH]; intros [|y b] H; cbn in H; try discriminate; [reflexivity|].
+  apply andb_true_iff in H as [H1 H2]. apply str_eqb_eq in H1. f_equal; auto.
+Qed.
+Lemma llstr_eqb_eq a b : llstr_eqb a b = true -> a = b.
+Proof.
+  revert b; induction a as [|x a IH]; intros [|y b] H; cbn in H; try discriminate; [reflexivity|].
+  apply andb_true_iff in H as [H1 H2]. apply lstr_eqb_eq in H1. f_equal; auto.
+Qed.
+Lemma list_Z_eqb_eq a b : list_Z_eqb a b = true -> a = b.
+Proof.
+  revert b; induction a as [|x a IH]; intros [|y b] H; cbn in H; try discriminate; [reflexivity|].
+  apply andb_true_iff in H as [H1 H2]. apply Z.eqb_eq in H1. f_equal; auto.
+Qed.
+Lemma optN_eqb_eq a b : optN_eqb a b = true -> a = b.
+Proof. destruct a, b; cbn; intro H; try discriminate; [apply N.eqb_eq in H; congruence|reflexivity]. Qed.
+Lemma optstr_eqb_eq a b : optstr_eqb a b = true -> a = b.
+Proof. destruct a, b; cbn; intro H; try discriminate; [apply str_eqb_eq in H; congruence|reflexivity]. Qed.
+Lemma optlstr_eqb_eq a b : opt_eqb lstr_eqb a b = true -> a = b.
+Proof. destruct a, b; cbn; intro H; try discriminate; [apply lstr_eqb_eq in H; congruence|reflexivity]. Qed.
+Lemma kind_eqb_eq a b : kind_eqb a b = true -> a = b.
+Proof. destruct a, b; cbn; intro; congruence. Qed.
+Lemma beqb_eq a b : Bool.eqb a b = true -> a = b.
+Proof. apply eqb_prop. Qed.
+
+(* ================================================================== sets of strings *)
+Lemma smem_In x l : smem x l = true <-> In x l.
+Proof.
+  unfold smem. rewrite existsb_exists. split.
+  - intros [y [Hy E]]. apply str_eqb_eq in E. subst; assumption.
+  - intro H. exists x. split; [assumption|apply str_eqb_refl].
+Qed.
+Lemma subset_incl a b : subset a b = true <-> incl a b.
+Proof.
+  unfold subset. rewrite forallb_forall. unfold incl.
+  split; intros H x Hx; [apply smem_In|apply smem_In]; auto.
+Qed.
+Definition seq (a b : list str) : Prop := forall x, In x a <-> In x b.
+Lemma set_eqb_seq a b : set_eqb a b = true -> seq a b.
+Proof.
+  unfold set_eqb. intro H. apply andb_true_iff in H as [H1 H2].
+  apply subset_incl in H1. apply subset_incl in H2. intro x; split; auto.
+Qed.
+Lemma subsets_seq a b : subset a b = true -> subset b a = true -> seq a b.
+Proof. intros H1 H2. apply set_eqb_seq. unfold set_eqb. rewrite H1, H2. reflexivity. Qed.
+Lemma bool_ext (p q : bool) : (p = true <-> q = true) -> p = q.
+Proof. destruct p, q; intuition. Qed.
+Lemma subset_seq_l a a' l : seq a a' -> subset a l = subset a' l.
+Proof.
+  intro E. apply bool_ext. rewrite !subset_incl. unfold incl.
+  split; intros H x Hx; apply H; apply E; assumption.
+Qed.
+Lemma existsb_seq (P : str -> bool) a a' : seq a a' -> existsb P a = existsb P a'.
+Proof.
+  intro E. apply bool_ext. rewrite !existsb_exists.
+  split; intros [x [Hx HP]]; exists x; (split; [apply E; assumption|assumption]).
+Qed.
+Lemma inter_In x a l : In x (inter a l) <-> In x a /\ In x l.
+Proof. unfold inter. rewrite filter_In. rewrite smem_In. tauto. Qed.
+Lemma inter_seq a a' l : seq a a' -> seq (inter a l) (inter a' l).
+Proof. intros E x. rewrite !inter_In. rewrite (E x). tauto. Qed.
+Lemma nonempty_seq a a' : seq a a' -> nonempty a = nonempty a'.
+Proof.
+  intro E. destruct a as [|x a], a' as [|y a']; cbn; try reflexivity.
+  - exfalso. apply (proj2 (E y)). left; reflexivity.
+  - exfalso. apply (proj1 (E x)). left; reflexivity.
+Qed.
+
+Lemma cont_match_seq v v' all neg s : seq v v' -> cont_match v all neg s = cont_match v' all neg s.
+Proof.
+  intro E. unfold cont_match. destruct s as [[x|l]|l|p]; try reflexivity.
+  - rewrite (existsb_seq _ v v' E). reflexivity.
+  - rewrite (subset_seq_l v v' l E), (existsb_seq _ v v' E). reflexivity.
+  - rewrite (subset_seq_l v v' [] E). reflexivity.
+Qed.
+Lemma udc_match_seq f v v' neg s : seq v v' -> udc_match f v neg s = udc_match f v' neg s.
+Proof.
+  intro E. unfold udc_match.
+  destruct s as [a|l|p]; try reflexivity.
+  destruct l as [|[x|iuse] l]; try reflexivity.
+  destruct l as [|[x|use] l]; try reflexivity.
+  destruct l; try reflexivity.
+  rewrite (subset_seq_l v v' iuse E), (subset_seq_l v v' use E).
+  rewrite (nonempty_seq _ _ (inter_seq v v' iuse E)).
+  rewrite (subset_seq_l _ _ use (inter_seq v v' iuse E)). reflexivity.
+Qed.
+
+(* ================================================================== ver_cmp is three valued (all strings) *)
+Definition tri (z : Z) : Prop := z = (-1)%Z \/ z = 0%Z \/ z = 1%Z.
+Lemma tri_sgn c : tri (sgn c).
+Proof. destruct c; unfold tri; cbn; auto. Qed.
+Lemma tri_0 : tri 0%Z. Proof. unfold tri; auto. Qed.
+Lemma tri_str_cmp a b : tri (str_cmp a b).
+Proof.
+  revert b; induction a as [|x a IH]; intros [|y b]; cbn [str_cmp]; unfold tri; auto.
+  destruct (N.compare x y); auto. apply IH.
+Qed.
+Lemma tri_comp_cmp f a b : tri (comp_cmp f a b).
+Proof.
+  unfold comp_cmp. destruct (str_eqb a b); [apply tri_0|].
+  destruct (f || _); [apply tri_sgn|apply tri_str_cmp].
+Qed.
+Lemma tri_comps_cmp f l1 l2 : tri (comps_cmp f l1 l2).
+Proof.
+  revert f l2; induction l1 as [|a t1 IH]; intros f [|b t2]; cbn [comps_cmp]; try apply tri_0.
+  destruct (Z.eqb (comp_cmp f a b) 0); [apply IH|apply tri_comp_cmp].
+Qed.
+Lemma tri_num_cmp f p1 p2 : tri (num_cmp f p1 p2).
+Proof.
+  unfold num_cmp. destruct (str_eqb p1 p2); [apply tri_0|].
+  destruct (pull_letter (split_on 46 p1)) as [c1 l1]. destruct (pull_letter (split_on 46 p2)) as [c2 l2].
+  destruct (negb (Z.eqb (comps_cmp f c1 c2) 0)); [apply tri_comps_cmp|].
+  destruct (negb (Z.eqb (cmp_len (length c1) (length c2)) 0)); [apply tri_sgn|].
+  destruct (Z.eqb l1 l2); [apply tri_0|apply tri_sgn].
+Qed.
+Lemma tri_suf_loop l1 l2 c : suf_loop l1 l2 = Some c -> tri c.
+Proof.
+  revert l2 c; induction l1 as [|s1 t1 IH]; intros [|s2 t2] c; cbn [suf_loop].
+  - discriminate.
+  - destruct (parse_suffix s2) as [n d].
+    destruct (negb (Z.eqb (suffix_val n) 0)); intros [= <-]; apply tri_sgn.
+  - destruct (parse_suffix s1) as [n d].
+    destruct (negb (Z.eqb (suffix_val n) 0)); intros [= <-]; apply tri_sgn.
+  - destruct (str_eqb s1 s2); [apply IH|].
+    destruct (parse_suffix s1) as [n1 d1]. destruct (parse_suffix s2) as [n2 d2].
+    destruct (negb (Z.eqb (cmpZ (suffix_val n1) (suffix_val n2)) 0)).
+    + intros [= <-]; apply tri_sgn.
+    + destruct (negb (Z.eqb (cmpN (suffix_num d1) (suffix_num d2)) 0)).
+      * intros [= <-]; apply tri_sgn.
+      * apply IH.
+Qed.
+Lemma tri_ver_cmp v1 r1 v2 r2 : tri (ver_cmp v1 r1 v2 r2).
+Proof.
+  unfold ver_cmp, ver_cmp_gen, rev_cmp.
+  destruct (str_eqb v1 v2); [apply tri_sgn|].
+  destruct (negb (Z.eqb (num_cmp true (hd [] (split_on 95 v1)) (hd [] (split_on 95 v2))) 0));
+    [apply tri_num_cmp|].
+  destruct (suf_loop _ _) eqn:E; [apply (tri_suf_loop _ _ _ E)|apply tri_sgn].
+Qed.
+
+(* a negated _VersionMatch accepts exactly the complementary comparison results *)
+Lemma memZ_convert c neg vals : tri c -> xorb (memZ c vals) neg = memZ c (convert_ops neg vals).
+Proof.
+  intros T. unfold convert_ops. destruct neg; [|apply xorb_false_r].
+  unfold complement_ops.
+  destruct T as [ -> | [ -> | -> ] ]; cbn;
+    destruct (memZ (-1) vals), (memZ 0 vals), (memZ 1 vals); reflexivity.
+Qed.
+Lemma ver_match_ops d v r neg vals p :
+  ver_match d v r neg vals p =
+  match pver p with
+  | None => false
+  | Some pv => let '(r1, r2) := if d then (None, None) else (r, prev p) in
+               memZ (ver_cmp pv r2 v r1) (convert_ops neg vals)
+  end.
+Proof.
+  unfold ver_match. destruct (pver p); [|reflexivity].
+  destruct d; apply memZ_convert; apply tri_ver_cmp.
+Qed.
+Lemma ver_eq_match d1 v1 r1 n1 l1 d2 v2 r2 n2 l2 p :
+  ver_eq d1 v1 r1 n1 l1 d2 v2 r2 n2 l2 = true -> ver_match d1 v1 r1 n1 l1 p = ver_match d2 v2 r2 n2 l2 p.
+Proof.
+  unfold ver_eq. intro H.
+  apply andb_true_iff in H as [H H4]. apply andb_true_iff in H as [H H3]. apply andb_true_iff in H as [H1 H2].
+  apply beqb_eq in H1. apply str_eqb_eq in H2. apply optN_eqb_eq in H3. apply list_Z_eqb_eq in H4.
+  subst. rewrite !ver_match_ops. rewrite H4. reflexivity.
+Qed.
+
+(* ================================================================== induction over restriction trees *)
+Section RInd.
+  Variable P : restr -> Prop.
+  Hypothesis HExact : forall e c n h, P (RExact e c n h).
+  Hypothesis HGlob : forall g p n i h, P (RGlob g p n i h).
+  Hypothesis HRegex : forall g n i m h, P (RRegex g n i m h).
+  Hypothesis HCont : forall v a n, P (RCont v a n).
+  Hypothesis HUdc : forall f v n, P (RUdc f v n).
+  Hypothesis HVer : forall d v r n l, P (RVer d v r n l).
+  Hypothesis HAlways : forall o b, P (RAlways o b).
+  Hypothesis HNegate : forall o r, P r -> P (RNegate o r).
+  Hypothesis HNode : forall k t n cs, Forall P cs -> P (RNode k t n cs).
+  Hypothesis HAttr : forall k n a r, P r -> P (RAttr k n a r).
+  Hypothesis HMulti : forall k n a r, P r -> P (RMulti k n a r).
+  Hypothesis HCond : forall n a r p, P r -> Forall P p -> P (RCond n a r p).
+  Hypothesis HAtom : forall a, P (RAtom a).
+  Hypothesis HDepSet : forall cs, Forall P cs -> P (RDepSet cs).
+
+  Fixpoint restr_rect' (r : restr) : P r :=
+    let fix go (l : list restr) : Forall P l :=
+      match l with
+      | [] => Forall_nil P
+      | c :: l' => Forall_cons c (restr_rect' c) (go l')
+      end in
+    match r with
+    | RExact e c n h => HExact e c n h
+    | RGlob g p n i h => HGlob g p n i h
+    | RRegex g n i m h => HRegex g n i m h
+    | RCont v a n => HCont v a n
+    | RUdc f v n => HUdc f v n
+    | RVer d v r' n l => HVer d v r' n l
+    | RAlways o b => HAlways o b
+    | RNegate o r' => HNegate o r' (restr_rect' r')
+    | RNode k t n cs => HNode k t n cs (go cs)
+    | RAttr k n a r' => HAttr k n a r' (restr_rect' r')
+    | RMulti k n a r' => HMulti k n a r' (restr_rect' r')
+    | RCond n a r' p => HCond n a r' p (restr_rect' r') (go p)
+    | RAtom a => HAtom a
+    | RDepSet cs => HDepSet cs (go cs)
+    end.
+End RInd.
+
+(* ================================================================== equal => same matches *)
+Lemma parsed_alike_sub (f : restr -> list atomrec) a b la lb :
+  (forall x y, In x la -> In y lb -> atom_parsed_alike x y) ->
+  incl (atoms_of a) la -> incl (atoms_of b) lb -> parsed_alike a b.
+Proof. intros H Ha Hb x y Hx Hy. apply H; [apply Ha|apply Hb]; assumption. Qed.
+
+Lemma incl_flat_map {A B} (f : A -> list B) x l : In x l -> incl (f x) (flat_map f l).
+Proof. intros H y Hy. apply in_flat_map. exists x; auto. Qed.
+
+Lemma atom_eq_restrictions x y :
+  atom_parsed_alike x y -> atom_eq x y = true -> atom_restrictions x = atom_restrictions y.
+Proof.
+  intros PA H. unfold atom_eq in H.
+  repeat (apply andb_true_iff in H as [H ?]).
+  apply str_eqb_eq in H.
+  repeat match goal with
+         | E : str_eqb _ _ = true |- _ => apply str_eqb_eq in E
+         | E : Bool.eqb _ _ = true |- _ => apply beqb_eq in E
+         | E : optstr_eqb _ _ = true |- _ => apply optstr_eqb_eq in E
+         | E : opt_eqb lstr_eqb _ _ = true |- _ => apply optlstr_eqb_eq in E
+         end.
+  destruct (PA H ltac:(assumption)) as (E1 & E2 & E3 & E4 & E5).
+  unfold atom_restrictions. rewrite H0, E2, E1, E3, H7, E4, E5, H5, H3, H2, H4. reflexivity.
+Qed.
+
+Arguments set_eqb : simpl never.
+Arguments ver_eq : simpl never.
+Arguments atom_eq : simpl never.
+Arguments atom_hk : simpl never.
+
+Section SameMatch.
+  Variable c : cfg.
+  Variable rx : rx_t.
+  Let M := rmatch rx.
+
+  Definition match_goal (a : restr) : Prop :=
+    forall b, parsed_alike a b -> known c false a b = false -> r_eq c a b = true ->
+              forall s, M a s = M b s.
+
+  Lemma all2_map_match cs1 : Forall match_goal cs1 -> forall cs2,
+    (forall x y, In x cs1 -> In y cs2 -> parsed_alike x y) ->
+    any2 (fun x y => known c false x y) cs1 cs2 = false ->
+    list_all2 (fun x y => cmpr c false x y) cs1 cs2 = true ->
+    forall s, map (fun r => M r s) cs1 = map (fun r => M r s) cs2.
+  Proof.
+    induction 1 as [|x cs1 Hx _ IH]; intros [|y cs2] PA K E s; cbn in *; try discriminate; [reflexivity|].
+    apply orb_false_iff in K as [K1 K2]. apply andb_true_iff in E as [E1 E2].
+    f_equal.
+    - apply Hx; auto.
+    - apply IH; auto.
+  Qed.
+
+  Ltac conj_split E := repeat (apply andb_true_iff in E as [E ?]).
+  Ltac to_eqs :=
+    repeat match goal with
+           | X : str_eqb _ _ = true |- _ => apply str_eqb_eq in X
+           | X : Bool.eqb _ _ = true |- _ => apply beqb_eq in X
+           | X : lstr_eqb _ _ = true |- _ => apply lstr_eqb_eq in X
+           | X : llstr_eqb _ _ = true |- _ => apply llstr_eqb_eq in X
+           | X : kind_eqb _ _ = true |- _ => apply kind_eqb_eq in X
+           end.
+
+  Lemma eq_same_match_all : forall a, match_goal a.
+  Proof.
+    intro a.
+    induction a as [e1 c1 n1 h1|g1 p1 n1 i1 h1|g1 n1 i1 m1 h1|v1 a1 n1|f1 v1 n1|d1 v1 r1 n1 l1|o1 b1|o1 r1 IH
+                   |k1 t1 n1 cs1 IH|k1 n1 at1 r1 IH|k1 n1 at1 r1 IH|n1 at1 r1 p1 IH IHp|x1|cs1 IH]
+      using restr_rect';
+      intros bb PA K E s;
+      destruct bb as [e2 c2 n2 h2|g2 p2 n2 i2 h2|g2 n2 i2 m2 h2|v2 a2 n2|f2 v2 n2|d2 v2 r2 n2 l2|o2 b2|o2 r2
+                     |k2 t2 n2 cs2|k2 n2 at2 r2|k2 n2 at2 r2|n2 at2 r2 p2|x2|cs2];
+      cbn in E; try discriminate; unfold M, rmatch; cbn [rmatch_core].
+    - (* exact *) conj_split E. to_eqs. subst. reflexivity.
+    - (* glob *) conj_split E. to_eqs. subst. reflexivity.
+    - (* regex *) conj_split E. to_eqs. subst. reflexivity.
+    - (* cont / cont *)
+      conj_split E. to_eqs. subst. apply cont_match_seq. apply subsets_seq; assumption.
+    - (* cont / udc : only while if_missing is not keyed, a known class *)
+      cbn in K. conj_split E. rewrite K in E. discriminate.
+    - (* udc / cont *)
+      cbn in K. conj_split E. rewrite K in E. discriminate.
+    - (* udc / udc *)
+      cbn in K. apply negb_false_iff in K. conj_split E. rewrite K in *. cbn in *. to_eqs. subst.
+      apply udc_match_seq. apply subsets_seq; assumption.
+    - (* ver *)
+      destruct s; try reflexivity. apply ver_eq_match; assumption.
+    - (* always *) conj_split E. to_eqs. assumption.
+    - (* negate *) conj_split E. f_equal. apply IH; auto.
+    - (* node *)
+      conj_split E. to_eqs. subst. f_equal. apply all2_map_match; auto.
+      intros x y Hx Hy. eapply parsed_alike_sub; [exact atoms_of|exact PA| |];
+        cbn; apply incl_flat_map; assumption.
+    - (* attr *)
+      conj_split E. cbn in E. apply N.eqb_eq in E. to_eqs. subst.
+      destruct s as [?|?|p]; try reflexivity.
+      destruct (N.eqb k2 1).
+      + apply IH; auto.
+      + destruct (pull (pattrs p) at2); [|reflexivity]. f_equal. apply IH; auto.
+    - (* multi *)
+      conj_split E. to_eqs. subst.
+      destruct s as [?|?|p]; try reflexivity.
+      destruct (pull_all (pattrs p) at2); [|reflexivity]. f_equal. apply IH; auto.
+    - (* cond *)
+      conj_split E. to_eqs. subst.
+      cbn in K. apply orb_false_iff in K as [K1 K2].
+      destruct s as [?|?|p]; try reflexivity.
+      destruct (pull (pattrs p) at2); [|reflexivity]. f_equal. apply IH; auto.
+      eapply parsed_alike_sub; [exact atoms_of|exact PA| |]; cbn; apply incl_appl; apply incl_refl.
+    - (* atom *)
+      unfold atom_match. rewrite (atom_eq_restrictions x1 x2); [reflexivity| |assumption].
+      apply PA; cbn; auto.
+    - (* depset: match is refused for both *) reflexivity.
+  Qed.
+End SameMatch.
+
+Lemma eq_implies_same_match_proof : forall c a b,
+  parsed_alike a b -> known c false a b = false -> r_eq c a b = true -> same_matches a b.
+Proof. intros c a b PA K E rx s. apply (eq_same_match_all c rx a b PA K E s). Qed.
+
+(* ================================================================== equal => same hash key *)
+Lemma forallb_existsb_mono {A B} (f g : A -> B -> bool) l1 l2 :
+  (forall x y, f x y = true -> g x y = true) ->
+  forallb (fun x => existsb (fun y => f x y) l2) l1 = true ->
+  forallb (fun x => existsb (fun y => g x y) l2) l1 = true.
+Proof.
+  intros Hfg. rewrite !forallb_forall. intros H x Hx. specialize (H x Hx).
+  apply existsb_exists in H as [y [Hy Hf]]. apply existsb_exists. exists y; auto.
+Qed.
+
+Section SameHash.
+  Variable c : cfg.
+
+  Definition hash_goal (a : restr) : Prop :=
+    forall b, known c true a b = false -> r_eq c a b = true -> hk_eq c a b = true.
+
+  Lemma all2_hash cs1 : Forall hash_goal cs1 -> forall cs2,
+    any2 (fun x y => known c true x y) cs1 cs2 = false ->
+    list_all2 (fun x y => cmpr c false x y) cs1 cs2 = true ->
+    list_all2 (fun x y => cmpr c true x y) cs1 cs2 = true.
+  Proof.
+    induction 1 as [|x cs1 Hx _ IH]; intros [|y cs2] K E; cbn in *; try discriminate; [reflexivity|].
+    apply orb_false_iff in K as [K1 K2]. apply andb_true_iff in E as [E1 E2].
+    apply andb_true_iff; split; [apply Hx; auto|apply IH; auto].
+  Qed.
+
+  Ltac conj_split E := repeat (apply andb_true_iff in E as [E ?]).
+  Ltac conj_goal := repeat (apply andb_true_iff; split); try assumption; try reflexivity.
+
+  Lemma eq_same_hash_all : forall a, hash_goal a.
+  Proof.
+    intro a.
+    induction a as [e1 c1 n1 h1|g1 p1 n1 i1 h1|g1 n1 i1 m1 h1|v1 a1 n1|f1 v1 n1|d1 v1 r1 n1 l1|o1 b1|o1 r1 IH
+                   |k1 t1 n1 cs1 IH|k1 n1 at1 r1 IH|k1 n1 at1 r1 IH|n1 at1 r1 p1 IH IHp|x1|cs1 IH]
+      using restr_rect';
+      intros bb K E;
+      destruct bb as [e2 c2 n2 h2|g2 p2 n2 i2 h2|g2 n2 i2 m2 h2|v2 a2 n2|f2 v2 n2|d2 v2 r2 n2 l2|o2 b2|o2 r2
+                     |k2 t2 n2 cs2|k2 n2 at2 r2|k2 n2 at2 r2|n2 at2 r2 p2|x2|cs2];
+      unfold r_eq in E; unfold hk_eq; cbn [cmpr] in *; try discriminate; try exact E.
+    - (* exact *) rewrite orb_true_l. rewrite orb_false_l in E. conj_split E. conj_goal.
+    - (* glob *) rewrite orb_true_l. rewrite orb_false_l in E. conj_split E. conj_goal.
+    - (* regex *) rewrite orb_true_l. rewrite orb_false_l in E. conj_split E. conj_goal.
+    - (* negate *) cbn in K. apply andb_true_iff in E as [E1 E2]. apply andb_true_iff; split; [assumption|].
+      apply IH; assumption.
+    - (* node *) cbn in K. apply andb_true_iff in E as [E1 E2]. apply andb_true_iff; split; [assumption|].
+      apply all2_hash; assumption.
+    - (* attr *) cbn in K. rewrite orb_true_l. rewrite orb_false_l in E. conj_split E. conj_goal.
+      apply IH; assumption.
+    - (* multi *) cbn in K. rewrite orb_true_l. rewrite orb_false_l in E. conj_split E. conj_goal.
+      apply IH; assumption.
+    - (* cond *) cbn in K. apply orb_false_iff in K as [K1 K2].
+      apply andb_true_iff in E as [E E4]. conj_split E. conj_goal.
+      + apply IH; assumption.
+      + apply all2_hash; assumption.
+    - (* atom: the hash key is the original text *)
+      cbn in K. apply negb_false_iff in K. exact K.
+    - (* depset: membership in the compared sets already requires equal hashes *)
+      apply andb_true_iff in E as [E1 E2]. apply andb_true_iff; split.
+      + revert E1. apply forallb_existsb_mono. intros x y H. apply andb_true_iff in H as [H _]. exact H.
+      + revert E2. apply (forallb_existsb_mono (fun y x => cmpr c true x y && cmpr c false x y)
+                                               (fun y x => cmpr c true x y)).
+        intros y x H. apply andb_true_iff in H as [H _]. exact H.
+  Qed.
+End SameHash.
+
+Lemma eq_implies_same_hash_key_proof : forall c a b,
+  known c true a b = false -> r_eq c a b = true -> hk_eq c a b = true.
+Proof. intros c a b K E. apply (eq_same_hash_all c a b K E). Qed.
+
+Lemma eq_interchangeable_partial_proof : forall c a b,
+  parsed_alike a b -> known c true a b = false -> known c false a b = false ->
+  r_eq c a b = true -> interchangeable c a b.
+Proof.
+  intros c a b PA K1 K2 E. split.
+  - apply eq_implies_same_hash_key_proof; assumption.
+  - eapply eq_implies_same_match_proof; eassumption.
+Qed.
+
+(* ================================================================== restriction-keyed caches *)
+Lemma cache_sound_partial_proof : forall c (V : Type) (compute : restr -> V) m k v,
+  respects_matching V compute -> filled_by V compute m ->
+  (forall k' v', In (k', v') m -> parsed_alike k' k /\ known c false k' k = false) ->
+  lookup c V k m = Some v -> v = compute k.
+Proof.
+  intros c V compute m k v RM. induction m as [|[k' v'] m IH]; intros F W L; cbn in L; [discriminate|].
+  destruct (r_eq c k' k) eqn:E.
+  - injection L as <-. rewrite (F k' v' (or_introl eq_refl)).
+    apply RM. destruct (W k' v' (or_introl eq_refl)) as [PA K].
+    eapply eq_implies_same_match_proof; eassumption.
+  - apply IH; auto.
+    + intros k0 v0 H. apply F. right; assumption.
+    + intros k0 v0 H. apply (W k0 v0). right; assumption.
+Qed.
+
+(* ================================================================== refutations (faithful, pinned behaviour) *)
+Definition sx : str := [120%N].
+Definition sy : str := [121%N].
+Definition empty_pair : subj := SMulti [ASet []; ASet []].
+
+(* if_missing is not part of _UseDepDefaultContainment's identity on a tree without C04's repair *)
+Lemma full_statement_refuted_udc_proof : ~ C07_full_statement cfg_pinned.
+Proof.
+  intro H. destruct (H (RUdc true [sx] false) (RUdc false [sx] false) eq_refl) as [_ M].
+  specialize (M rx_lit empty_pair). vm_compute in M. discriminate.
+Qed.
+
+(* atoms hash their original text: !a/b == !!a/b, a/b[x,y] == a/b[y,x] with different hash keys *)
+Definition mk_atom (text : str) (strong : bool) (use : option (list str)) : atomrec :=
+  {| a_text := text; a_cpvstr := [97;47;98]%N; a_op := []; a_blocks := strong || true; a_strong := strong;
+     a_negate_vers := false; a_use := use; a_slot := None; a_subslot := None; a_slotop := None; a_repo := None;
+     a_cat := [97%N]; a_pkg := [98%N]; a_fullver := None; a_ver := None; a_rev := None |}.
+Definition atom_weak := mk_atom [33;97;47;98]%N false None.             (* !a/b *)
+Definition atom_strong := mk_atom [33;33;97;47;98]%N true None.         (* !!a/b *)
+Lemma full_statement_refuted_atom_text_proof : forall c, ~ C07_full_statement c.
+Proof.
+  intros c H. destruct (H (RAtom atom_weak) (RAtom atom_strong) eq_refl) as [K _].
+  vm_compute in K. discriminate.
+Qed.
+
+(* the pinned _VersionMatch: a negated ~ equals the plain ~ and matches the complement;
+   a negated < equals >= with another hash key *)
 Definition pk1 : pk := {| pattrs := []; pver := Some [49%N]; prev := None |}.
 Lemma versionmatch_orig_refuted_proof :
-  ver_eq_orig true [49%N] None false [0%Z] true [49%N] None true [0%Z] = true
-  /\ ver_hk_orig true [49%N] None false [0%Z] true [49%N] None true [0%Z] = false
-  /\ ver_match true [49%N] None false [0%Z] pk1 <> ver_match true [49%N] None true [0%Z] pk1.
+  (ver_eq_orig true [49%N] None false [0%Z] true [49%N] None true [0%Z] = true
+   /\ ver_match true [49%N] None false [0%Z] pk1 <> ver_match true [49%N] None true [0%Z] pk1)
+  /\ (ver_eq_orig false [49%N] None true [(-1)%Z] false [49%N] None false [0%Z; 1%Z] = true
+      /\ ver_hk_orig false [49%N] None true [(-1)%Z] false [49%N] None false [0%Z; 1%Z] = false).
 Proof. vm_compute. repeat split; discriminate. Qed.
+
+(* the pinned DepSet.__hash__ hashes the ordered tuple although __eq__ compares sets *)
+Definition at1 := RAtom (mk_atom [97;47;98]%N false None).
+Definition at2 := RAtom (mk_atom [33;33;97;47;98]%N true None).
+Lemma depset_orig_refuted_proof : forall c,
+  r_eq c (RDepSet [at1; at2]) (RDepSet [at2; at1]) = true
+  /\ depset_hk_orig c [at1; at2] [at2; at1] = false
+  /\ r_eq c (RDepSet [at1; at1]) (RDepSet [at1]) = true
+  /\ depset_hk_orig c [at1; at1] [at1] = false.
+Proof. intros [[|]]; vm_compute; repeat split. Qed.
+
+(* ================================================================== non-vacuity *)
+(* equal pairs built by different constructor calls, outside the known classes *)
+Example ex_equal_pairs :
+  let c := cfg_fixed in
+  let p1 := (mk_exact [65;98]%N false false true, mk_exact [97;66]%N false false true) in          (* "Ab" / "aB", case-insensitive *)
+  let p2 := (RCont [sx; sy] false false, RCont [sy; sx; sy] false false) in
+  let p3 := (RVer false [49;46;48]%N None true [(-1)%Z], RVer false [49;46;48]%N None false [0%Z; 1%Z]) in   (* not < 1.0 / >= 1.0 *)
+  let p4 := (RNode KOr 2 false [mk_categorydep [97%N] true false; RAttr 0 true [s_use] (fst p2)],
+             RNode KOr 2 false [RAttr 4 false [s_category] (mk_exact [97%N] true true false);
+                                RAttr 0 true [s_use] (snd p2)]) in
+  let p5 := (RUdc true [sx; sy] true, RUdc true [sy; sx] true) in
+  forallb (fun p => r_eq c (fst p) (snd p) && negb (known c true (fst p) (snd p))
+                    && negb (known c false (fst p) (snd p))) [p1; p2; p3; p4; p5] = true
+  /\ fst p2 <> snd p2 /\ fst p3 <> snd p3 /\ fst p4 <> snd p4.
+Proof. vm_compute. repeat split; discriminate. Qed.
+
+(* ... and look-alikes that are NOT equal (so the hypothesis r_eq is not trivially true either) *)
+Example ex_unequal_lookalikes :
+  let c := cfg_fixed in
+  r_eq c (RVer true [49%N] None false [0%Z]) (RVer true [49%N] None true [0%Z]) = false          (* ~1 / not ~1 *)
+  /\ r_eq c (RUdc true [sx] false) (RUdc false [sx] false) = false                                   (* x(+) / x(-) *)
+  /\ r_eq c (mk_categorydep [97%N] true false) (RAttr 0 true [s_category] (mk_exact [97%N] true false false)) = false
+  /\ r_eq c (RExact [97%N] true false true) (RExact [97%N] true false false) = false.                 (* hashed / not yet hashed *)
+Proof. vm_compute. repeat split. Qed.
+
+(* the cache corollary is about a non-empty situation: a hit through an equal, differently built key *)
+Example ex_cache_hit :
+  lookup cfg_fixed nat (RCont [sy; sx; sy] false false) [(RCont [sx; sy] false false, 7%nat)] = Some 7%nat.
+Proof. reflexivity. Qed.
